@@ -4,7 +4,9 @@
 package main
 
 import (
+	"compress/gzip"
 	"context"
+	"fmt"
 	"io"
 	"net"
 	"net/http"
@@ -69,9 +71,18 @@ func newHTTPCollector() *httpCollector {
 		_, _ = w.Write(b)
 	}
 	read := func(w http.ResponseWriter, req *http.Request, m proto.Message) bool {
-		body, err := io.ReadAll(req.Body)
-		if err == nil && req.Header.Get("Content-Encoding") != "" {
-			err = io.ErrUnexpectedEOF // the harness never configures compression
+		var rd io.Reader = req.Body
+		var err error
+		switch enc := req.Header.Get("Content-Encoding"); enc {
+		case "":
+		case "gzip":
+			rd, err = gzip.NewReader(req.Body)
+		default:
+			err = fmt.Errorf("unexpected Content-Encoding %q", enc)
+		}
+		var body []byte
+		if err == nil {
+			body, err = io.ReadAll(rd)
 		}
 		if err == nil {
 			err = proto.Unmarshal(body, m)
